@@ -205,6 +205,11 @@ func qAtomText(a *qAtom) string {
 		return fmt.Sprintf(`%s:"%s"`, a.K, a.Tok)
 	case "ftime", "ltime":
 		return tm(a.K)
+	case "sub_port":
+		return fmt.Sprintf("@s:cport:%d sport:@s:sport@", a.N)
+	case "sub_id":
+		typ, sub, _ := strings.Cut(a.Name, "/")
+		return fmt.Sprintf("@s:%s:%s id:@s:id@+1", typ, sub)
 	}
 	return "id:-1"
 }
@@ -453,7 +458,7 @@ func TestVerifQuery(t *testing.T) {
 	for ci := range inp.Cases {
 		ast := &inp.Cases[ci]
 		text := qText(ast)
-		row := map[string]any{"case": ci, "text": text, "ast": ast, "hang": false, "perr": "", "unsup": "", "nf": map[string]any{"imp": false, "cs": [][]qCond{}}, "runs": []any{}}
+		row := map[string]any{"case": ci, "text": text, "ast": ast, "subq": strings.Contains(text, "@s:"), "hang": false, "perr": "", "unsup": "", "nf": map[string]any{"imp": false, "cs": [][]qCond{}}, "runs": []any{}}
 		q, err, hung := qParse(text)
 		if hung {
 			row["hang"] = true
@@ -463,10 +468,14 @@ func TestVerifQuery(t *testing.T) {
 			}
 		} else if err != nil {
 			row["perr"] = err.Error()
-		} else if nf, unsup := qNormalForm(q); unsup != "" {
+		} else if nf, unsup := qNormalForm(q); unsup != "" && !strings.Contains(text, "@s:") {
 			row["unsup"] = unsup
 		} else {
-			row["nf"] = nf
+			if unsup == "" {
+				row["nf"] = nf
+			} else {
+				row["unsup"] = unsup
+			}
 			runs := []any{}
 			for li, lay := range layouts {
 				for ri, run := range inp.Runs {
